@@ -21,6 +21,10 @@ CLAIMED['C16'] = dict(
    text='Seeded exploration of interleaved sampling calls on 11 kinds of sampling entry point (4 error models + reduced, all population models, PredictiveModel, PopulationPredictiveModel, Prior/Posterior/PAM predictive models, sample_initial_parameters of the three posteriors, SamplingController(seed)) with integer / Generator / None seeds while the process-global numpy and random generators are perturbed between calls. History oracle: same integer seed => identical result (D1), different seeds => different draws where continuous noise exists (D2), a Generator passed as seed is advanced and is the only source of randomness (D3, twin generator on an untouched replica), no two generators created inside one draw start from the same state and both produce variates, systematically across seeds (D4 i), no two noise cells are perfectly dependent (D4 ii). Sampling, not proof; partial correlation is out of reach.',
    ref='DESIGN.md section 5 (C16)',
    note='Trusted: the randomness seam (dst/rng_seam.py) sees every numpy.random.default_rng / numpy.random.seed call chi makes; unseeded draws are served from the run PRNG so they replay. D3 is applied only to entry points that accept a Generator.')
+CLAIMED['C19'] = dict(
+   text='Seeded exploration of interleaved evaluation histories (value, pointwise values, value with sensitivities, simulate, seeded sampling, initial points) on 2-6 objects derived from shared user models (error/mechanistic/population models and their reduced wrappers, LogLikelihood, LogPosterior, HierarchicalLogLikelihood/Posterior, PopulationFilterLogPosterior, PredictiveModel, PopulationPredictiveModel), with caller-side changes of the user models after hand-over, read-only / list / strided-view arguments, injected solver failures, perturbation of the global generators, and batches through the real pints.ParallelEvaluator running on a simulated machine (baton-passing processes, fork emulated by deep copy, seeded scheduler, 1-4 workers, worker recycling, persistent workers over two batches, parent-side evaluations between batches, starvation) against pints.SequentialEvaluator. Every result must equal the same query on a fresh, never-touched replica built per distinct query; arguments must be unchanged. Sampling, not proof.',
+   ref='DESIGN.md section 5 (C19)',
+   note='Trusted: solver stand-in; process emulation (dst/mp_stub.py): fork = deep copy + private global-generator state, an evaluation inside a worker is atomic (forked processes share no memory). Pre-emption inside a chi call by another thread is not modelled (no property claims thread safety). Population models are not mutated behind a likelihood (not promised by the property).')
 NA = {
  'C01': 'pure function of grids, observations and parameters: no history, schedule, fault or process in the statement; deciding it needs input generation against a reference likelihood (property-based testing), a different technique',
  'C02': 'pure function of composition, data and parameter vector; nothing for a simulator to control',
